@@ -60,8 +60,15 @@ fn ssh_main(args: &[String]) -> i32 {
 // ---- tokenizer -------------------------------------------------------------------------
 
 #[derive(Clone, Debug, PartialEq)]
+enum Part {
+    Lit(String),
+    /// `$( ... )`: expanded when the command runs; `quoted` = inside double quotes
+    Sub(String, bool),
+}
+
+#[derive(Clone, Debug, PartialEq)]
 enum Tok {
-    Word(String),
+    Word(Vec<Part>),
     And,
     Or,
     Semi,
@@ -145,15 +152,61 @@ fn tokenize(s: &str) -> Result<Vec<Tok>, String> {
     let chars: Vec<char> = s.chars().collect();
     let mut i = 0;
     let mut toks = Vec::new();
+    let mut parts: Vec<Part> = Vec::new();
     let mut cur = String::new();
     let mut have = false;
     macro_rules! flush {
         () => {
             if have {
-                toks.push(Tok::Word(std::mem::take(&mut cur)));
+                if !cur.is_empty() || parts.is_empty() {
+                    parts.push(Part::Lit(std::mem::take(&mut cur)));
+                }
+                toks.push(Tok::Word(std::mem::take(&mut parts)));
                 have = false;
             }
         };
+    }
+    // read a `$( ... )` body starting after "$(" ; returns the inner text
+    fn subst_body(chars: &[char], i: &mut usize) -> Result<String, String> {
+        let mut depth = 1;
+        let mut out = String::new();
+        while *i < chars.len() {
+            let c = chars[*i];
+            *i += 1;
+            match c {
+                '(' => {
+                    depth += 1;
+                    out.push(c);
+                }
+                ')' => {
+                    depth -= 1;
+                    if depth == 0 {
+                        return Ok(out);
+                    }
+                    out.push(c);
+                }
+                '\'' => {
+                    out.push(c);
+                    // $'..' inside: backslash-quote does not end it
+                    let ansi = out.ends_with("$'");
+                    while *i < chars.len() {
+                        let d = chars[*i];
+                        *i += 1;
+                        out.push(d);
+                        if ansi && d == '\\' && *i < chars.len() {
+                            out.push(chars[*i]);
+                            *i += 1;
+                            continue;
+                        }
+                        if d == '\'' {
+                            break;
+                        }
+                    }
+                }
+                _ => out.push(c),
+            }
+        }
+        Err("unexpected EOF while looking for matching `)'".into())
     }
     while i < chars.len() {
         let c = chars[i];
@@ -237,6 +290,15 @@ fn tokenize(s: &str) -> Result<Vec<Tok>, String> {
                         i += 2;
                         continue;
                     }
+                    if d == '$' && i + 1 < chars.len() && chars[i + 1] == '(' {
+                        i += 2;
+                        let body = subst_body(&chars, &mut i)?;
+                        if !cur.is_empty() {
+                            parts.push(Part::Lit(std::mem::take(&mut cur)));
+                        }
+                        parts.push(Part::Sub(body, true));
+                        continue;
+                    }
                     cur.push(d);
                     i += 1;
                 }
@@ -245,6 +307,15 @@ fn tokenize(s: &str) -> Result<Vec<Tok>, String> {
                 have = true;
                 i += 2;
                 ansi_c(&chars, &mut i, &mut cur)?;
+            }
+            '$' if i + 1 < chars.len() && chars[i + 1] == '(' => {
+                have = true;
+                i += 2;
+                let body = subst_body(&chars, &mut i)?;
+                if !cur.is_empty() {
+                    parts.push(Part::Lit(std::mem::take(&mut cur)));
+                }
+                parts.push(Part::Sub(body, false));
             }
             _ => {
                 cur.push(c);
@@ -257,11 +328,52 @@ fn tokenize(s: &str) -> Result<Vec<Tok>, String> {
     Ok(toks)
 }
 
+/// Expand one word at execution time: literals as they are, `$(..)` by running the inner
+/// command with its stdout captured (trailing newlines stripped; unquoted results are
+/// split on whitespace).
+fn expand(parts: &[Part]) -> Vec<String> {
+    let mut words: Vec<String> = vec![String::new()];
+    let mut any = false;
+    for p in parts {
+        match p {
+            Part::Lit(s) => {
+                words.last_mut().unwrap().push_str(s);
+                any = true;
+            }
+            Part::Sub(cmd, quoted) => {
+                let mut cap = Out::Buf(Vec::new());
+                let _ = run_shell_with(cmd, &mut cap);
+                let Out::Buf(b) = cap else { continue };
+                let text = String::from_utf8_lossy(&b).trim_end_matches('\n').to_string();
+                if *quoted {
+                    words.last_mut().unwrap().push_str(&text);
+                    any = true;
+                } else {
+                    let mut first = true;
+                    for piece in text.split_whitespace() {
+                        if !first {
+                            words.push(String::new());
+                        }
+                        words.last_mut().unwrap().push_str(piece);
+                        first = false;
+                        any = true;
+                    }
+                }
+            }
+        }
+    }
+    if !any && parts.iter().all(|p| matches!(p, Part::Sub(_, false))) {
+        return Vec::new();
+    }
+    words
+}
+
 // ---- interpreter -----------------------------------------------------------------------
 
 enum Out {
     Proc,
     File(sfs::File),
+    Buf(Vec<u8>),
 }
 
 impl Out {
@@ -269,6 +381,10 @@ impl Out {
         match self {
             Out::Proc => sio::stdout().write_all(b),
             Out::File(f) => f.write_all(b),
+            Out::Buf(v) => {
+                v.extend_from_slice(b);
+                Ok(())
+            }
         }
     }
 }
@@ -300,6 +416,11 @@ impl In {
 }
 
 pub fn run_shell(cmd: &str) -> i32 {
+    let mut out = Out::Proc;
+    run_shell_with(cmd, &mut out)
+}
+
+fn run_shell_with(cmd: &str, default_out: &mut Out) -> i32 {
     let toks = match tokenize(cmd) {
         Ok(t) => t,
         Err(e) => {
@@ -313,9 +434,9 @@ pub fn run_shell(cmd: &str) -> i32 {
     let mut skip_mode: Option<bool> = None; // Some(true): skip next because of && after failure etc.
     while i < toks.len() {
         // collect one simple command
-        let mut words: Vec<String> = Vec::new();
-        let mut redir_out: Option<String> = None;
-        let mut redir_in: Option<String> = None;
+        let mut words: Vec<Vec<Part>> = Vec::new();
+        let mut redir_out: Option<Vec<Part>> = None;
+        let mut redir_in: Option<Vec<Part>> = None;
         while i < toks.len() {
             match &toks[i] {
                 Tok::Word(w) => {
@@ -349,7 +470,11 @@ pub fn run_shell(cmd: &str) -> i32 {
         }
         let skip = skip_mode.take().unwrap_or(false);
         if !skip && (!words.is_empty() || redir_out.is_some()) {
-            status = run_simple(&words, redir_out.as_deref(), redir_in.as_deref());
+            // expansion happens now, when the command is about to run
+            let w: Vec<String> = words.iter().flat_map(|p| expand(p)).collect();
+            let ro = redir_out.as_ref().map(|p| expand(p).join(" "));
+            let ri = redir_in.as_ref().map(|p| expand(p).join(" "));
+            status = run_simple(&w, ro.as_deref(), ri.as_deref(), default_out);
         }
         // connector
         match toks.get(i) {
@@ -375,18 +500,22 @@ pub fn run_shell(cmd: &str) -> i32 {
     status
 }
 
-fn run_simple(words: &[String], rout: Option<&str>, rin: Option<&str>) -> i32 {
+fn run_simple(words: &[String], rout: Option<&str>, rin: Option<&str>, default_out: &mut Out) -> i32 {
     // redirections are opened by the shell before the command runs
-    let mut out = Out::Proc;
+    let mut file_out: Option<Out> = None;
     if let Some(p) = rout {
         match sfs::File::create(p) {
-            Ok(f) => out = Out::File(f),
+            Ok(f) => file_out = Some(Out::File(f)),
             Err(e) => {
                 eprint_proc(&format!("bash: {p}: {}\n", os_msg(&e)));
                 return 1;
             }
         }
     }
+    let out: &mut Out = match file_out.as_mut() {
+        Some(o) => o,
+        None => default_out,
+    };
     let mut inp = In::Proc;
     if let Some(p) = rin {
         match sfs::File::open(p) {
@@ -400,7 +529,7 @@ fn run_simple(words: &[String], rout: Option<&str>, rin: Option<&str>) -> i32 {
     if words.is_empty() {
         return 0;
     }
-    run_cmd(&words[0], &words[1..], &mut inp, &mut out)
+    run_cmd(&words[0], &words[1..], &mut inp, out)
 }
 
 fn os_msg(e: &std::io::Error) -> String {
@@ -448,6 +577,43 @@ fn run_cmd(name: &str, args: &[String], inp: &mut In, out: &mut Out) -> i32 {
         "rm" => cmd_rm(args),
         "touch" => cmd_touch(args),
         "test" | "[" => cmd_test(name, args),
+        "wc" => {
+            // wc -c [FILE]: byte count
+            let files: Vec<&String> = args.iter().filter(|a| !a.starts_with('-')).collect();
+            if let Some(f) = files.first() {
+                match sfs::metadata(f) {
+                    Ok(m) => {
+                        let _ = out.write_all(format!("{} {}\n", m.len(), f).as_bytes());
+                        0
+                    }
+                    Err(e) => {
+                        eprint_proc(&format!("wc: {f}: {}\n", os_msg(&e)));
+                        1
+                    }
+                }
+            } else {
+                let n = inp.read_all().map(|d| d.len()).unwrap_or(0);
+                let _ = out.write_all(format!("{n}\n").as_bytes());
+                0
+            }
+        }
+        "stat" => {
+            // stat -c %s FILE
+            let files: Vec<&String> = args.iter().filter(|a| !a.starts_with('-') && !a.starts_with('%')).collect();
+            let mut st = 0;
+            for f in files {
+                match sfs::metadata(f) {
+                    Ok(m) => {
+                        let _ = out.write_all(format!("{}\n", m.len()).as_bytes());
+                    }
+                    Err(e) => {
+                        eprint_proc(&format!("stat: cannot statx '{f}': {}\n", os_msg(&e)));
+                        st = 1;
+                    }
+                }
+            }
+            st
+        }
         "copia" => {
             let mut argv = vec!["copia".to_string()];
             argv.extend(args.iter().cloned());
@@ -852,13 +1018,25 @@ fn split_opts(args: &[String]) -> (String, Vec<String>) {
 }
 
 fn cmd_mv(args: &[String]) -> i32 {
-    let (_opts, ops) = split_opts(args);
+    let (opts, ops) = split_opts(args);
     if ops.len() < 2 {
         eprint_proc("mv: missing file operand\n");
         return 1;
     }
     let dst = ops.last().unwrap().clone();
-    let dst_is_dir = sfs::metadata(&dst).map(|m| m.is_dir()).unwrap_or(false);
+    let mut dst_is_dir = sfs::metadata(&dst).map(|m| m.is_dir()).unwrap_or(false);
+    if opts.contains('T') {
+        // --no-target-directory: treat DEST as a normal file
+        if ops.len() > 2 {
+            eprint_proc(&format!("mv: extra operand '{}'\n", ops[2]));
+            return 1;
+        }
+        if dst_is_dir && !sfs::metadata(&ops[0]).map(|m| m.is_dir()).unwrap_or(false) {
+            eprint_proc(&format!("mv: cannot overwrite directory '{dst}' with non-directory\n"));
+            return 1;
+        }
+        dst_is_dir = false;
+    }
     if ops.len() > 2 && !dst_is_dir {
         eprint_proc(&format!("mv: target '{dst}' is not a directory\n"));
         return 1;
@@ -1029,7 +1207,14 @@ fn cmd_test(name: &str, args: &[String]) -> i32 {
         ["-z", s] => s.is_empty(),
         [x, "=", y] => x == y,
         [x, "!=", y] => x != y,
-        [x, "-eq", y] => x.parse::<i64>().ok() == y.parse::<i64>().ok(),
+        [x, "-eq", y] => match (x.trim().parse::<i64>(), y.trim().parse::<i64>()) {
+            (Ok(a), Ok(b)) => a == b,
+            _ => {
+                eprint_proc("bash: test: integer expression expected\n");
+                return 2;
+            }
+        },
+        [x, "-ne", y] => x.trim().parse::<i64>().ok() != y.trim().parse::<i64>().ok(),
         [x] => !x.is_empty(),
         [] => false,
         _ => {
@@ -1050,8 +1235,8 @@ mod tests {
     #[test]
     fn tok_ansi_c() {
         let t = tokenize("cat > $'a\\'b c.copia-tmp' && mv -f $'x\\\\y' z").unwrap();
-        assert_eq!(t[0], Tok::Word("cat".into()));
-        assert_eq!(t[2], Tok::Word("a'b c.copia-tmp".into()));
-        assert_eq!(t[6], Tok::Word("x\\y".into()));
+        assert_eq!(t[0], Tok::Word(vec![Part::Lit("cat".into())]));
+        assert_eq!(t[2], Tok::Word(vec![Part::Lit("a'b c.copia-tmp".into())]));
+        assert_eq!(t[6], Tok::Word(vec![Part::Lit("x\\y".into())]));
     }
 }
